@@ -49,6 +49,10 @@ def check(model: Model, rep: Report, tier: str):
     from .c07 import a9
     with rep.isolated():
         a9(model, rep, "C13.M6")
+    from .c06 import u4 as _u4
+    with rep.isolated():
+        share_rule(rep, model, _u4, "C13.M9", "every round circuit is unrolled before it is flattened: DeclarativeCircuit.apply_modifiers unrolls the structure it holds at every "
+                   "depth, unconditionally (= C06.U4); a shortcut that looks at the top level only leaves the repeated QEC block rolled and the later acquisition indices shift")
     from .c01 import r6
     with rep.isolated():
         share_rule(rep, model, r6, "C13.M7", "flattening a round re-inserts every operation through add_to_graph: an operation whose reference was dissolved goes behind the latest "
